@@ -193,3 +193,65 @@ def _adv_lemma():
 
 
 REG.lemma("C13.advertised_is_accepted", _adv_lemma, props=("C13",))
+
+
+# ---------------------------------------------------------------------------- allowable_pilot_signals / DeadbandEVSE ctor / factory
+REG.contract(
+    M + "EVSE.allowable_pilot_signals", params=dict(self=Ref("EVSE")), ret=Seq(Real), modifies=[],
+    ensures=[C("C13.adv_list", lambda old, new, ret: [
+        ("shape", And(ret.len == 2, Eq(ret[0], old.self._min_rate), Eq(ret[1], old.self._max_rate))),
+        ("accepted", Implies(inv_EVSE(old.self), And(accepts_EVSE(old.self, ret[0]), accepts_EVSE(old.self, ret[1]))))])])
+REG.contract(
+    M + "DeadbandEVSE.allowable_pilot_signals", params=dict(self=Ref("DeadbandEVSE")), ret=Seq(Real), modifies=[],
+    ensures=[C("C13.adv_list", lambda old, new, ret: [
+        ("shape", And(ret.len == 2, Eq(ret[0], old.self._deadband_end), Eq(ret[1], old.self._max_rate))),
+        ("accepted", Implies(inv_Deadband(old.self),
+                             And(accepts_Deadband(old.self, ret[0]), accepts_Deadband(old.self, ret[1]))))])])
+REG.contract(
+    M + "FiniteRatesEVSE.allowable_pilot_signals", params=dict(self=Ref("FiniteRatesEVSE")), ret=Seq(Real), modifies=[],
+    ensures=[C("C13.adv_list", lambda old, new, ret: [
+        ("is_the_rate_list", And(ret.len == old.self.allowable_rates.len,
+                                 AllIdx(0, ret.len, lambda i: ret[i] == old.self.allowable_rates[i]))),
+        ("accepted", AllIdx(0, ret.len, lambda i: accepts_Finite(old.self, ret[i])))])])
+REG.contract(
+    M + "DeadbandEVSE.__init__",
+    params=dict(self=Ref("DeadbandEVSE"), station_id=Id, deadband_end=Real, max_rate=Real),
+    modifies=BASE_FIELDS + ["DeadbandEVSE._max_rate", "DeadbandEVSE._deadband_end"],
+    ensures=[C("C13.init", lambda old, new, ret: [
+        new.self._station_id == old.station_id, IsNone(new.self._ev), Eq(new.self._current_pilot, 0),
+        Eq(new.self._max_rate, old.max_rate), Eq(new.self._deadband_end, old.deadband_end),
+        Implies(old.deadband_end <= old.max_rate, inv_Deadband(new.self))])])
+
+
+def _cls_of(v):
+    return getattr(getattr(v, "_v", None), "cls", None)
+
+
+def _factory_clauses(old, new, ret):
+    c = _cls_of(ret)
+    out = []
+    if c == "EVSE":
+        out += [("basic", And(Eq(old.evse_type, "BASIC"), Eq(ret._max_rate, 32), Eq(ret._min_rate, 0),
+                              ret._station_id == old.station_id, IsNone(ret._ev), inv_EVSE(ret)))]
+    elif c == "FiniteRatesEVSE":
+        r = ret.allowable_rates
+        # the rate list is strictly increasing (inv_Finite), so "same members" pins the list itself
+        for tname, expected in (("AeroVironment", [0] + list(range(6, 33))), ("ClipperCreek", [0, 8, 16, 24, 32])):
+            is_t = Eq(old.evse_type, tname)
+            out.append((f"finite.{tname}.only_expected", Implies(is_t, AllIdx(0, r.len, lambda j: Or(*[r[j] == e for e in expected])))))
+            for e in expected:
+                out.append((f"finite.{tname}.has_{e}", Implies(is_t, AnyIdx(0, r.len, lambda j, e=e: r[j] == e))))
+        out += [("finite", And(Or(Eq(old.evse_type, "AeroVironment"), Eq(old.evse_type, "ClipperCreek")),
+                               ret._station_id == old.station_id, IsNone(ret._ev), inv_Finite(ret)))]
+    elif ret is None:
+        out += [("unknown_type", Not(Or(Eq(old.evse_type, "BASIC"), Eq(old.evse_type, "AeroVironment"),
+                                        Eq(old.evse_type, "ClipperCreek"))))]
+    else:
+        out += [("unexpected_class", False)]
+    return out
+
+
+REG.contract(
+    M + "get_evse_by_type", params=dict(station_id=Id, evse_type=Id), modifies=BASE_FIELDS + [
+        "EVSE._max_rate", "EVSE._min_rate", "FiniteRatesEVSE.allowable_rates", "alloc"],
+    ensures=[C("C13.factory", _factory_clauses, props=("C13", "C16"))])
